@@ -21,6 +21,7 @@ func main() {
 	explain := flag.String("explain", "", "print a stored violations file")
 	list := flag.Bool("list", false, "list every obligation")
 	dump := flag.String("dump", "", "debug: dump CFG of the named function")
+	freeze := flag.Bool("freeze", false, "with -prop all -tier thorough: rewrite checker/tf/subrules.json from this run (then rebuild)")
 	flag.Parse()
 
 	if *explain != "" {
@@ -83,6 +84,9 @@ func main() {
 		os.Exit(2)
 	}
 	exit := 0
+	if *freeze {
+		tf.FreezeInto = map[string][]string{}
+	}
 	for _, pr := range props {
 		if len(tf.RulesFor(pr)) == 0 {
 			fmt.Printf("tfcheck: no rules registered for %s\n", pr)
@@ -97,6 +101,14 @@ func main() {
 		if e := res.Emit(p, *verif, known, seed); e > exit {
 			exit = e
 		}
+	}
+	if *freeze {
+		b, _ := json.MarshalIndent(tf.FreezeInto, "", " ")
+		if err := os.WriteFile(filepath.Join(*verif, "checker", "tf", "subrules.json"), append(b, '\n'), 0644); err != nil {
+			fmt.Println("tfcheck: freeze:", err)
+			os.Exit(2)
+		}
+		fmt.Printf("froze sub-rule segments of %d rules\n", len(tf.FreezeInto))
 	}
 	os.Exit(exit)
 }
